@@ -352,6 +352,10 @@ pub fn parent_main(check: &dyn TCheck, args: &Args) -> ! {
             if args.tier == Tier::Quick { "1800" } else { "21600" },
         );
     }
+    if std::env::var("VERIF_STALL_S").is_err() {
+        // an execution takes milliseconds to a few seconds; five minutes of silence is a stall
+        std::env::set_var("VERIF_STALL_S", "300");
+    }
     let outs = proc::fan_out(n, &wargs);
     let mut works: BTreeMap<u64, Value> = BTreeMap::new();
     let mut runs: Vec<Value> = vec![];
@@ -371,6 +375,9 @@ pub fn parent_main(check: &dyn TCheck, args: &Args) -> ! {
         }
         if !o.ok {
             match last_begin {
+                // the worker stopped making progress inside an execution: jubako blocks on
+                // something that is not under the simulator's control (a real lock, a real wait)
+                Some(b) if o.stalled => deaths.push(("stall (no progress for the whole watchdog period inside one execution; killed)".to_string(), b)),
                 // the worker process itself died while running jubako code in an execution:
                 // a memory error (or abort) is an observation, not a harness failure
                 Some(b) if o.status.contains("signal") && !o.status.contains("signal: 9") => {
@@ -595,11 +602,26 @@ pub fn replay_main(check: &dyn TCheck, _args: &Args, file: &str) -> ! {
     let prep = prepare_work(check, seed, tier, work, &scratch.path);
     if v["trace"].as_array().is_none() && std::env::var("VERIF_REPLAY_INNER").is_err() {
         // the recorded violation is a process death: observe it from outside
-        let st = std::process::Command::new(std::env::current_exe().unwrap())
+        let mut child = std::process::Command::new(std::env::current_exe().unwrap())
             .args(std::env::args().skip(1))
             .env("VERIF_REPLAY_INNER", "1")
-            .status()
+            .spawn()
             .expect("spawn inner replay");
+        let limit = std::env::var("VERIF_STALL_S").ok().and_then(|s| s.parse::<u64>().ok()).unwrap_or(300);
+        let start = std::time::Instant::now();
+        let st = loop {
+            match child.try_wait().expect("wait inner replay") {
+                Some(st) => break st,
+                None if start.elapsed().as_secs() >= limit => {
+                    let _ = child.kill();
+                    let _ = child.wait();
+                    println!("VIOLATION property={} replay={file}", check.id());
+                    println!("  class: process-death:stall - the execution does not come back within {limit} s (recorded: {})", v["class"]);
+                    std::process::exit(1)
+                }
+                None => std::thread::sleep(std::time::Duration::from_millis(200)),
+            }
+        };
         use std::os::unix::process::ExitStatusExt;
         if let Some(sig) = st.signal() {
             println!("VIOLATION property={} replay={file}", check.id());
